@@ -26,7 +26,7 @@ from vlib import driver
 PROPS = ["MxlVerif.Props.C20"]
 EXACT = ["mean", "mean_squared", "mae", "mean_absolute_percentage"]
 GOOD = ["mean_squared", "rmse", "mae", "mean_absolute_percentage", "mean_squared_logarithmic"]
-FINDING = {"mean": "F-C20-2"}
+FINDING = {}
 ALL = ["cosine_similarity", "mae", "mean", "mean_absolute_percentage", "mean_squared", "mean_squared_logarithmic", "rmse"]
 
 
@@ -39,7 +39,7 @@ def oracle_value(name, d, p):
     """independent restatement with exact rationals; None where irrational (compared via a reference)"""
     n = len(d)
     if name == "mean":
-        return sum(a - b for a, b in zip(d, p)) / n
+        return abs(sum(a - b for a, b in zip(d, p)) / n)  # the absolute mean error
     if name == "mean_squared":
         return sum((a - b) ** 2 for a, b in zip(d, p)) / n
     if name == "mae":
@@ -171,6 +171,16 @@ def judge_loss(ctx, c, r, m_all):
                   what="losses.cosine_similarity: -1 at the data, minimal there, invariant under scaling the prediction")
         return
     tol = 0.0 if (sv is not None and exact_len) else 1e-12
+    if name == "mean":
+        # the absolute bias: 0 at the data, never negative, not lowered below the data's score by a larger prediction;
+        # it also vanishes when errors cancel, so "zero only at the data" is not among its laws
+        R = {"zero_at_data": abs(r["dd"]) <= tol, "nonneg": r["dp"] >= -tol, "scaling_up_not_rewarded": not (r["dlp"] < r["dd"] - tol)}
+        S = {"zero_at_data": True, "nonneg": True, "scaling_up_not_rewarded": True}
+        M = None
+        if m_val is not None and exact_len:
+            M = {"zero_at_data": F(mdd) == 0, "nonneg": F(m_val) >= 0, "scaling_up_not_rewarded": not (F(mdlp) < F(mdd))}
+        ctx.judge({"stream": "prop", **c}, R, S, M, what="losses.mean: absolute mean error — 0 at the data, never negative")
+        return
     R = {"zero_at_data": abs(r["dd"]) <= tol, "nonneg": r["dp"] >= -tol,
          "zero_only_at_data": (abs(r["dp"]) <= tol) == (d == p),
          "scaling_up_not_rewarded": not (r["dlp"] < r["dd"] - tol)}
@@ -919,7 +929,7 @@ def judge_quad(ctx, c, r):
                                              for k, v in best.items() if k in (c.get("bounds") or {}))}
     S = {"loss_is_residual_at_best": True, "loss_le_residual_p0": True, "names": list(c["p0"]), "input_untouched": True,
          "best_within_requested_bounds": True}
-    ctx.judge({"stream": "quad", **c}, R, S, None, finding="F-C20-9" if glob == "basinhopping" else None,
+    ctx.judge({"stream": "quad", **c}, R, S, None,
               what="fit.* through a caller-supplied residual: honest loss, names, boxes respected")
     if ctx.driver_ok:
         (mv,) = driver.call_batch([{"op": "c20", "fit": {"p0": [[k, q(F(v))] for k, v in c["p0"].items()],
